@@ -445,6 +445,23 @@ def run(chk, replay=None):
         chk.count(l, l.startswith("rel") or l.startswith("wrel"))
         if a != b:
             mism.append(dict(case=l, impl_output=a, model_output=b, correspondence="lines (Names.display / Paths.related_path vs Symbol Display / PathResolver)"))
+    # a related_path disagreement is turned into a document: a struct in module p1 referring to a struct in p2's module
+    rel_bad = [m for m in mism if m["case"].startswith("rel ")][:4]
+    for m in rel_bad:
+        _, a1, a2 = m["case"].split(" ")
+        p1 = [] if a1 == "-" else a1.split(",")
+        p2 = a2.split(",")
+        if len(p2) < 2 or p2[:-1] == p1:
+            continue
+        files = {"main.thrift": ("namespace rs %s\n" % ".".join(p1) if p1 else "") + 'include "t.thrift"\nstruct Holder { 1: required t.Target x, 2: optional list<t.Target> xs }\n',
+                 "t.thrift": "namespace rs %s\nstruct Target { 1: i32 a }\n" % ".".join(p2[:-1])}
+        cfgw = dict(mode="single", keep=0, cc=0, iu=0)
+        b, ok2, errs2 = compile_alone(hb, "thrift", files, "main.thrift", cfgw, "rel")
+        chk.count("rel-document " + m["case"], True)
+        if not b["ok"] or ok2 is False:
+            failing.append((dict(kind="thrift", files=files, entry="main.thrift", doc=None, id="rel"), cfgw,
+                            "a reference from module %s to module %s does not resolve: %s" % (".".join(p1) or "<root>", ".".join(p2[:-1]), signature(b, ok2, errs2)[:300]),
+                            b, errs2))
     # conversion idempotence (the hypothesis of C14_names_injective), on the pool
     kinds = ["struct", "field", "const", "mod", "variant", "fn"]
     c1 = core.run_lines(hb, ["conv %s %s" % (k, s) for k in kinds for s in pool], shards=1, args=("lines",))
